@@ -320,12 +320,17 @@ def part_b_worker(cfg):
 
 def part_b(ctx):
     cfgs = runs.standard_lattice(ctx.seed, ctx.quick)
+    # plus every valid single option value of the C20 alphabet (whether such a run completes is
+    # C20's business; here only the monitor's clauses count)
+    cfgs += runs.option_sweep("std", ctx.seed)
     n_it = 0
     pos = set()
     for cfg, res in ctx.pmap(part_b_worker, cfgs):
         n_it += res["iterations"]
         pos |= set(res.get("insert_positions", []))
-        for clause, detail in res["errs"][:2]:
+        if cfg.get("sweep"):
+            ctx.count("real_runs_from_the_option_sweep")
+        for clause, detail in runs.sweep_errs(cfg, res["errs"])[:2]:
             ctx.violation(f"{clause}@real-run:{res['key']}", f"{clause}: {detail} in real run {cfg}", {"cfg": cfg})
         ctx.count("real_runs")
         if res.get("rejected_up_front"):
@@ -344,7 +349,7 @@ def run(ctx):
     ctx.assume(
         "part A: order-isomorphic live sets have isomorphic futures for every C01 observable (only comparisons are applied to logL), so the rank-compressed state space is finite and explored to the stated depth / fixpoint",
         "part A: a NaN logL on a replacement draw is in the alphabet as an answer that must be rejected; nlive > 5 only through part B",
-        "part B: real runs on tiny Gaussian models with tiny flows; configurations outside the lattice are not covered",
+        "part B: real runs on tiny Gaussian models with tiny flows: the hand-written lattice plus every valid single option value of the C20 option alphabet; other configurations are not covered",
     )
     shutil.rmtree(_tmp(), ignore_errors=True)
 
